@@ -190,7 +190,7 @@ func liveMember(g *G, m string) bool {
 }
 
 // PlansC07 returns the exploration plans of check C07 (also reused by C41).
-func PlansC07() []nrun.Plan { return plansC07 }
+func PlansC07() []nrun.Plan { return append(append([]nrun.Plan{}, plansC07...), GenPlanC07()) }
 
 var plansC07 = []nrun.Plan{
 	// The three protocols: k=1 quick, k=3 (time-capped) thorough.
@@ -220,8 +220,8 @@ var plansC07 = []nrun.Plan{
 // CheckC07 is the nrun description of check C07.
 func CheckC07() *nrun.Check {
 	return &nrun.Check{
-		ID: "C07", TestName: "TestC07", Plans: plansC07,
-		QuickTime: 120 * time.Second, ThorTime: 18 * time.Minute,
+		ID: "C07", TestName: "TestC07", Plans: PlansC07(),
+		QuickTime: 115 * time.Second, ThorTime: 18 * time.Minute,
 		Rule: strings.Join([]string{
 			"engine N, scenario family G: members A, B (C) of group g over topic t (3 partitions) as separate real kgo clients against kfake, one scenario per protocol (eager/range, cooperative-sticky, KIP-848)",
 			"script: A joins and owns t; B joins; A polls; B leaves (LeaveGroup or Close); A polls until it owns t again; variants: B AddConsumeTopics(t2), A AddConsumeTopics(t2) while inside its revoke callback, a partition added to t, B leaving inside the join rebalance, a third member",
